@@ -208,6 +208,14 @@ theorem step_predict_eq_ok {s s1 : F.S} {fh o l} :
   · rintro ⟨p, h1, rfl⟩
     exact ⟨(s1, p), l, [], h1, rfl, by simp⟩
 
+theorem step_setCutoff_eq_ok {s s1 : F.S} {c o l} :
+    (F.step s (.setCutoff c)).run = .ok ((s1, o), l) ↔ s1 = F.setCutoff s c ∧ o = none ∧ l = [] := by
+  simp only [step]
+  rw [pure_eq_ok]
+  constructor
+  · intro ⟨h, hl⟩; cases h; exact ⟨rfl, rfl, hl⟩
+  · rintro ⟨rfl, rfl, rfl⟩; exact ⟨rfl, rfl⟩
+
 theorem run_nil_eq_ok {s s2 : F.S} {outs l} :
     (F.run s []).run = .ok ((s2, outs), l) ↔ s2 = s ∧ outs = [] ∧ l = [] := by
   simp only [run]
@@ -288,6 +296,12 @@ theorem predictAll_get : ∀ (Fs : List Forecaster) (ss : States Fs) (fh : Optio
     | succ i =>
       obtain ⟨q, l, hq, hl⟩ := ih i (by simpa using hi)
       exact ⟨q, l, by simpa using hq, hl⟩
+
+theorem setCutoffAll_get : ∀ (Fs : List Forecaster) (ss : States Fs) (c : Option Int) (i : Nat),
+    (setCutoffAll Fs ss c).get Fs i = (member Fs i).setCutoff (ss.get Fs i) c
+  | [], _, _, _ => rfl
+  | _ :: _, (_, _), _, 0 => rfl
+  | _ :: Fs, (_, ss), c, i + 1 => setCutoffAll_get Fs ss c i
 
 /-! ### rows and columns of the member-forecast matrix -/
 
